@@ -158,6 +158,7 @@ func Run(c *vf.Check) {
 	})
 	c.Finish("engine E: per suite, G1 value set R1 and G2 value set R2 (identity, generators, Pick/Hash points, decoded/affine forms, projective sums, negations, clones, boundary multiples); every pair (P,Q) in R1xR2: Pair(P,Q) = model bilinear form (GT recomputed with GT.Add only), twice on the same objects; "+
 		"e(aP,bQ) = (ab)*e(P,Q) through GT.Mul for all a,b in {0,1,2,q-1,r1,r2} on a reduced point set; Pair(B1,B2) != 1; ValidatePairing(p1,p2,i1,i2) == [model form(p1,p2) = form(i1,i2)] for all quadruples of reduced sets (6x6x6x6), evaluated twice and with aliased arguments. "+
+		"An operand object of either group updated in place between two Pair calls (x.Add(x,r), x.Sub(r,x), x.Neg(x), x.Mul(3,x), x.Set(r), x.Null() on 5x5 operand pairs): the second call gives the pairing of the new value, ValidatePairing agrees with freshly decoded copies. Additivity over ALL pairs of each value set against the model, and over all pairs of six internal forms of one element (as made, (v+v)-v, -(-v), decoded, 3v-2v, clone): sums pair to 2e, differences to the identity; the mid-size boundary scalar alphabet (limb, word, window boundaries) in each argument separately. "+
 		"non-trivial = neither argument is the identity; distinct by (suite, expressions)",
 		[]string{"generators from Pick/Hash have no known discrete-log relation", "GT.Add is the recomputation primitive (C01 checks GT group laws)"}, nil)
 }
@@ -313,6 +314,198 @@ func runSuite(c *vf.Check, s *suiteModel, R1, R2 []fmod.V, part, parts int) {
 				}
 			}
 		}
+	}
+	// 5. an operand object updated in place between two Pair calls: the second call sees the new value (and
+	// ValidatePairing agrees with a freshly decoded copy of the new value)
+	type upd struct {
+		name string
+		f    func(m *fmod.Model, o kyber.Point, v fmod.Vec, r fmod.V) fmod.Vec
+	}
+	upds := []upd{
+		{"x.Add(x,r)", func(m *fmod.Model, o kyber.Point, v fmod.Vec, r fmod.V) fmod.Vec { o.Add(o, r.P); return m.VAdd(v, r.Vec) }},
+		{"x.Sub(r,x)", func(m *fmod.Model, o kyber.Point, v fmod.Vec, r fmod.V) fmod.Vec { o.Sub(r.P, o); return m.VSub(r.Vec, v) }},
+		{"x.Neg(x)", func(m *fmod.Model, o kyber.Point, v fmod.Vec, r fmod.V) fmod.Vec { o.Neg(o); return m.VNeg(v) }},
+		{"x.Mul(3,x)", func(m *fmod.Model, o kyber.Point, v fmod.Vec, r fmod.V) fmod.Vec {
+			o.Mul(m.Sc(big.NewInt(3)), o)
+			return m.VMul(big.NewInt(3), v)
+		}},
+		{"x.Set(r)", func(m *fmod.Model, o kyber.Point, v fmod.Vec, r fmod.V) fmod.Vec { o.Set(r.P); return r.Vec }},
+		{"x.Null()", func(m *fmod.Model, o kyber.Point, v fmod.Vec, r fmod.V) fmod.Vec { o.Null(); return m.Zero() }},
+	}
+	for side := 0; side < 2; side++ {
+		for _, p := range P1 {
+			for _, q := range P2 {
+				for _, u := range upds {
+					if !mine() {
+						continue
+					}
+					side, p, q, u := side, p, q, u
+					id := fmt.Sprintf("%s: Pair(%s, %s); G%d operand %s; Pair again", s.ps.Name, p.Name, q.Name, side+1, u.name)
+					c.Case(id, pk+"/Pair-after-update", func(x *vf.Ctx) {
+						po, qo := p.P.Clone(), q.P.Clone()
+						pv, qv := p.Vec, q.Vec
+						first := suite.Pair(po, qo)
+						if !first.Equal(s.canon(s.form(pv, qv))) {
+							x.Failf(pk+"/Pair", "%s: first call differs from the model", id)
+							return
+						}
+						if side == 0 {
+							pv = u.f(s.m1, po, pv, R1[len(R1)-1])
+						} else {
+							qv = u.f(s.m2, qo, qv, R2[len(R2)-1])
+						}
+						want := s.canon(s.form(pv, qv))
+						for rep := 0; rep < 2; rep++ {
+							got := suite.Pair(po, qo)
+							c.Eval(1)
+							if !got.Equal(want) || !bytes.Equal(fmod.Enc(got), fmod.Enc(want)) {
+								x.Failf(pk+"/Pair-after-update", "%s: the pairing of the updated object (call %d) is not the pairing of its new value", id, rep+1)
+								return
+							}
+						}
+						pf, qf := s.g1.Point(), s.g2.Point()
+						if pf.UnmarshalBinary(fmod.Enc(po)) != nil || qf.UnmarshalBinary(fmod.Enc(qo)) != nil {
+							x.Failf(pk+"/Pair-after-update", "%s: the updated operand does not decode", id)
+							return
+						}
+						if !suite.ValidatePairing(po, qo, pf, qf) || !suite.ValidatePairing(pf, qf, po, qo) {
+							x.Failf(pk+"/ValidatePairing", "%s: ValidatePairing(updated objects, freshly decoded copies) is false", id)
+						}
+					})
+					c.Count("transitions", 1)
+					c.Nontrivial(id)
+				}
+			}
+		}
+	}
+	// 6. additivity over the whole value sets - including pairs that hold the same element in different internal forms
+	Q1, Q2 := pick(R2, 2), pick(R1, 2)
+	for _, a := range R1 {
+		for _, b := range R1 {
+			if !mine() {
+				continue
+			}
+			a, b := a, b
+			id := fmt.Sprintf("%s: e(%s + %s, Q)", s.ps.Name, a.Name, b.Name)
+			c.Case(id, pk+"/additive-1", func(x *vf.Ctx) {
+				sum := s.g1.Point().Add(a.P, b.P)
+				for _, q := range Q1 {
+					c.Eval(1)
+					if !suite.Pair(sum, q.P).Equal(s.canon(s.form(s.m1.VAdd(a.Vec, b.Vec), q.Vec))) {
+						x.Failf(pk+"/additive-1", "%s with Q=%s is not e(.,Q)+e(.,Q) of the model", id, q.Name)
+						return
+					}
+				}
+			})
+			c.Count("transitions", 1)
+			if a.Vec.Eq(b.Vec) && a.Name != b.Name {
+				c.Nontrivial(id)
+			}
+		}
+	}
+	for _, a := range R2 {
+		for _, b := range R2 {
+			if !mine() {
+				continue
+			}
+			a, b := a, b
+			id := fmt.Sprintf("%s: e(P, %s + %s)", s.ps.Name, a.Name, b.Name)
+			c.Case(id, pk+"/additive-2", func(x *vf.Ctx) {
+				sum := s.g2.Point().Add(a.P, b.P)
+				for _, q := range Q2 {
+					c.Eval(1)
+					if !suite.Pair(q.P, sum).Equal(s.canon(s.form(q.Vec, s.m2.VAdd(a.Vec, b.Vec)))) {
+						x.Failf(pk+"/additive-2", "%s with P=%s is not e(P,.)+e(P,.) of the model", id, q.Name)
+						return
+					}
+				}
+			})
+			c.Count("transitions", 1)
+			if a.Vec.Eq(b.Vec) && a.Name != b.Name {
+				c.Nontrivial(id)
+			}
+		}
+	}
+	// 6b. the same element held in different internal forms (as made, (v+v)-v, -(-v), decoded, 3v-2v, a clone): every
+	// pair of forms added together pairs to 2*e(v,Q), every difference to the identity - in both groups
+	formsOf := func(m *fmod.Model, g *groups.G, v fmod.V) []fmod.V {
+		dbl := g.Point().Add(v.P, v.P)
+		f1 := g.Point().Sub(dbl, v.P)
+		f2 := g.Point().Neg(g.Point().Neg(v.P))
+		f3 := g.Point()
+		_ = f3.UnmarshalBinary(fmod.Enc(v.P))
+		three := g.Point().Mul(m.Sc(big.NewInt(3)), v.P)
+		f4 := g.Point().Sub(three, dbl)
+		return []fmod.V{v, {Name: "(" + v.Name + "+" + v.Name + ")-" + v.Name, P: f1, Vec: v.Vec}, {Name: "-(-" + v.Name + ")", P: f2, Vec: v.Vec},
+			{Name: "decoded " + v.Name, P: f3, Vec: v.Vec}, {Name: "3" + v.Name + "-2" + v.Name, P: f4, Vec: v.Vec}, {Name: "Clone(" + v.Name + ")", P: v.P.Clone(), Vec: v.Vec}}
+	}
+	for side := 0; side < 2; side++ {
+		m, g, set, other := s.m1, s.g1, P1, pick(R2, 2)
+		if side == 1 {
+			m, g, set, other = s.m2, s.g2, P2, pick(R1, 2)
+		}
+		for _, v := range set {
+			if !mine() {
+				continue
+			}
+			side, m, g, v, other := side, m, g, v, other
+			id := fmt.Sprintf("%s: forms of %s in G%d added and subtracted pairwise", s.ps.Name, v.Name, side+1)
+			c.Case(id, pk+"/additive-forms", func(x *vf.Ctx) {
+				fs := formsOf(m, g, v)
+				for _, a := range fs {
+					for _, b := range fs {
+						sum, diff := g.Point().Add(a.P, b.P), g.Point().Sub(a.P, b.P)
+						for _, o := range other {
+							var es, ed, want kyber.Point
+							if side == 0 {
+								es, ed, want = suite.Pair(sum, o.P), suite.Pair(diff, o.P), s.canon(s.scale(s.form(v.Vec, o.Vec), big.NewInt(2)))
+							} else {
+								es, ed, want = suite.Pair(o.P, sum), suite.Pair(o.P, diff), s.canon(s.scale(s.form(o.Vec, v.Vec), big.NewInt(2)))
+							}
+							c.Eval(2)
+							if !es.Equal(want) {
+								x.Failf(pk+"/additive-forms", "%s: e(%s + %s, %s) is not 2e(v,Q)", id, a.Name, b.Name, o.Name)
+								return
+							}
+							if !ed.Equal(s.gt.Group.Point().Null()) {
+								x.Failf(pk+"/additive-forms", "%s: e(%s - %s, %s) is not the identity", id, a.Name, b.Name, o.Name)
+								return
+							}
+						}
+					}
+				}
+			})
+			c.Count("transitions", 1)
+			if !v.Vec.IsZero() {
+				c.Nontrivial(id)
+			}
+		}
+	}
+	// 7. the wider boundary-scalar alphabet (limb, word and window boundaries) in one argument at a time
+	SW := alpha.Scalars(s.q, 1)
+	for _, a := range SW {
+		if !mine() {
+			continue
+		}
+		a := a
+		id := fmt.Sprintf("%s: e(%s*P, Q) and e(P, %s*Q)", s.ps.Name, a.Name, a.Name)
+		c.Case(id, pk+"/bilinear", func(x *vf.Ctx) {
+			p, q := s.m1.Gen(len(s.m1.Gens)-1), s.m2.Gen(len(s.m2.Gens)-1)
+			want := s.canon(s.scale(s.form(p.Vec, q.Vec), a.V))
+			c.Eval(2)
+			if !suite.Pair(s.m1.Mul(a, p).P, q.P).Equal(want) {
+				x.Failf(pk+"/bilinear", "%s: e(aP,Q) differs from a*e(P,Q) of the model", id)
+			}
+			if !suite.Pair(p.P, s.m2.Mul(a, q).P).Equal(want) {
+				x.Failf(pk+"/bilinear", "%s: e(P,aQ) differs from a*e(P,Q) of the model", id)
+			}
+			ak := alpha.ToScalar(s.gt.Group.Scalar(), a.V, s.q)
+			if !s.gt.Group.Point().Mul(ak, suite.Pair(p.P, q.P)).Equal(want) {
+				x.Failf(pk+"/bilinear", "%s: a*e(P,Q) through GT.Mul differs from the model", id)
+			}
+		})
+		c.Count("transitions", 1)
+		c.Nontrivial(id)
 	}
 	c.Count("states", int64(len(R1)+len(R2)))
 	c.Count("traces_validated_against_impl", int64(idx/parts))
